@@ -88,6 +88,18 @@ _FPU_ENS = [
 ]
 
 
+# the same statement without reference to scipy's answer (what callers may rely on, and what the property says): absent implies no strict
+# interior local maximum; present implies a local maximum p whose amplitude no strict interior local maximum exceeds
+_SLM = "(amplitude[{q}] > amplitude[{q}-1] and amplitude[{q}] > amplitude[{q}+1])"
+PARAM_LEVEL = [
+    "(result[0] is None) == (result[1] is None)",
+    "implies(result[0] is None, forall(i, 1, len(amplitude) - 1, not " + _SLM.format(q="i") + "))",
+    "implies(not (result[0] is None), exists(p, 1, len(amplitude) - 1, result[0] == frequency[p] and result[1] == amplitude[p] and "
+    "amplitude[p] >= amplitude[p-1] and amplitude[p] >= amplitude[p+1] and "
+    "forall(q, 1, len(amplitude) - 1, implies(" + _SLM.format(q="q") + ", amplitude[q] <= amplitude[p]))))",
+]
+
+
 def _fpu_contract(with_kwargs):
     # the candidate set is the array returned by find_peaks on this path; the ghost name `potential_peak_indices` is the
     # function's own local (the postcondition talks about scipy's answer, not about an incidental temporary: if the local is
@@ -96,6 +108,8 @@ def _fpu_contract(with_kwargs):
            "implies(len(potential_peak_indices) > 0, exists(t, 0, len(potential_peak_indices), "
            "result[0] == frequency[potential_peak_indices[t]] and result[1] == amplitude[potential_peak_indices[t]] and "
            "forall(u, 0, len(potential_peak_indices), amplitude[potential_peak_indices[u]] <= amplitude[potential_peak_indices[t]])))"]
+    if not with_kwargs:
+        ens = ens + PARAM_LEVEL
     return Contract(qual="hvsrpy.hvsr_curve.HvsrCurve._find_peak_unbounded", params=["frequency", "amplitude", "find_peaks_kwargs"],
                     defaults={"find_peaks_kwargs": None}, requires=[], ensures=ens, make_inputs=_fpu_inputs(with_kwargs), modifies=[])
 
